@@ -78,6 +78,14 @@ def run(ctx):
             for k in st.value.keywords:
                 if k.arg == "on_setattr" and "validate" not in src_of(k.value):
                     ctx.violate("R1", f"field {name} overrides on_setattr with `{src_of(k.value)}`: assignments after construction are no longer validated", relpath=ci.module.relpath, function=ci.qualname, construct=f"field {name} on_setattr={src_of(k.value)}")
+                elif k.arg == "on_setattr":
+                    # besides attrs' own converter / validator steps an assignment hook is arbitrary code that runs on
+                    # every assignment to the field: it may rewrite the other fields behind the consistency logic
+                    hooks = k.value.elts if isinstance(k.value, (ast.List, ast.Tuple)) else [k.value]
+                    for h_ in hooks:
+                        r_ = prog.resolve_expr(None, ci.module, h_)
+                        if not (r_ is not None and r_[0] == "external" and r_[1].split(".")[0] in ("attrs", "attr")):
+                            ctx.violate("R1", f"field {name} runs `{src_of(h_)}` on every assignment (on_setattr): assigning {name} changes other attributes outside the setters that keep charge, electron count and core charges consistent", relpath=ci.module.relpath, function=ci.qualname, construct=f"field {name} on_setattr hook {src_of(h_)}")
     for d in ci.node.decorator_list:
         if isinstance(d, ast.Call):
             for k in d.keywords:
